@@ -25,6 +25,23 @@ import (
 // every rule is still evaluated on the current body of whatever function was found, and an anchor
 // that cannot be re-found makes the rule UNDECIDED as before.
 
+// anchorFile is the content of anchors.json.
+type anchorFile struct {
+	Funcs   []anchorRec `json:"funcs"`
+	Structs []structRec `json:"structs"`
+}
+
+// structRec records the fields of a module struct type of the reviewed tree (unexported field names are
+// roles too: rules name them in patterns).
+type structRec struct {
+	Name   string   `json:"name"` // pkgrel.Type
+	Fields []string `json:"fields"`
+	Types  []string `json:"types"`
+}
+
+// fieldAlias: (struct type string, current field name) -> recorded field name
+var fieldAlias = map[string]string{}
+
 type anchorRec struct {
 	Name   string   `json:"name"` // shortFn at recording time
 	Pkg    string   `json:"pkg"`
@@ -110,8 +127,85 @@ func genAnchors(p *Prog) error {
 		recs = append(recs, anchorRec{Name: rawShortFn(fn), Pkg: relPkg(fnPkgPath(fn)), Recv: recv, Sig: sig, Finger: fingerprint(fn)})
 	}
 	sort.Slice(recs, func(i, j int) bool { return recs[i].Name < recs[j].Name })
-	b, _ := json.MarshalIndent(recs, "", " ")
+	var structs []structRec
+	for _, pk := range p.Pkgs {
+		sc := pk.Types.Scope()
+		for _, nm := range sc.Names() {
+			tn, ok := sc.Lookup(nm).(*types.TypeName)
+			if !ok {
+				continue
+			}
+			st, ok := tn.Type().Underlying().(*types.Struct)
+			if !ok || st.NumFields() == 0 {
+				continue
+			}
+			if pos := p.Fset.Position(tn.Pos()); isGeneratedFile(pos.Filename) {
+				continue
+			}
+			sr := structRec{Name: relPkg(pk.PkgPath) + "." + nm}
+			for i := 0; i < st.NumFields(); i++ {
+				sr.Fields = append(sr.Fields, st.Field(i).Name())
+				sr.Types = append(sr.Types, types.TypeString(st.Field(i).Type(), relQual))
+			}
+			structs = append(structs, sr)
+		}
+	}
+	sort.Slice(structs, func(i, j int) bool { return structs[i].Name < structs[j].Name })
+	b, _ := json.MarshalIndent(anchorFile{recs, structs}, "", " ")
 	return os.WriteFile(anchorsFile(), b, 0o644)
+}
+
+// resolveFieldRenames: a recorded struct that still exists with the same number of fields and the
+// same field types position by position, but other names at some positions, has had those fields
+// renamed: terms and patterns keep using the recorded names.
+func resolveFieldRenames(p *Prog, structs []structRec) {
+	for _, sr := range structs {
+		i := strings.LastIndex(sr.Name, ".")
+		if i < 0 {
+			continue
+		}
+		pk, err := p.pkg(sr.Name[:i])
+		if err != nil {
+			continue
+		}
+		tn, ok := pk.Types.Scope().Lookup(sr.Name[i+1:]).(*types.TypeName)
+		if !ok {
+			continue
+		}
+		st, ok := tn.Type().Underlying().(*types.Struct)
+		if !ok || st.NumFields() != len(sr.Fields) {
+			continue
+		}
+		same := true
+		for k := 0; k < st.NumFields(); k++ {
+			if types.TypeString(st.Field(k).Type(), relQual) != sr.Types[k] {
+				same = false
+			}
+		}
+		if !same {
+			continue
+		}
+		// only when no current name collides with a recorded name at another position
+		cur := map[string]int{}
+		for k := 0; k < st.NumFields(); k++ {
+			cur[st.Field(k).Name()] = k
+		}
+		okAll := true
+		for k, old := range sr.Fields {
+			if j, has := cur[old]; has && j != k {
+				okAll = false
+			}
+		}
+		if !okAll {
+			continue
+		}
+		for k := 0; k < st.NumFields(); k++ {
+			if st.Field(k).Name() != sr.Fields[k] {
+				fieldAlias[types.TypeString(tn.Type(), nil)+"."+st.Field(k).Name()] = sr.Fields[k]
+				canonInfo = append(canonInfo, fmt.Sprintf("field %s.%s is absent; the field at its position with its type, %s, is taken to be the renamed field", sr.Name, sr.Fields[k], st.Field(k).Name()))
+			}
+		}
+	}
 }
 
 func jaccard(a, b []string) float64 {
@@ -144,10 +238,12 @@ func resolveRenames(p *Prog) {
 	if err != nil {
 		return
 	}
-	var recs []anchorRec
-	if json.Unmarshal(data, &recs) != nil {
+	var af anchorFile
+	if json.Unmarshal(data, &af) != nil {
 		return
 	}
+	recs := af.Funcs
+	resolveFieldRenames(p, af.Structs)
 	recorded := map[string]*anchorRec{}
 	for i := range recs {
 		recorded[recs[i].Name] = &recs[i]
